@@ -139,6 +139,62 @@ async fn stream_scenario(rng_seed: u64, pair: (SocketType, SocketType), uring: b
   Some((obs, detail))
 }
 
+/// Hostile peers that keep talking after their bad greeting (the connection is already condemned, its receive may still
+/// be armed), several times the size of the provided receive ring - then a healthy pair on the same backend: the ring's
+/// buffers must all have been given back, i.e. the healthy pair delivers as on the tokio backend.
+async fn chatter_then_healthy(uring: bool, u: &Ucfg) -> Option<usize> {
+  let ctx = util::new_ctx();
+  let victim = mk(&ctx, SocketType::Pull, uring, u).await;
+  util::set_i32(&victim, opt::HANDSHAKE_IVL, 1500).await;
+  let vep = util::bind_fresh(&victim, Transport::Tcp).await.ok()?;
+  let chunks = (u.bufs * 2).max(8);
+  let mut raws = vec![];
+  for _ in 0..2 {
+    if let Ok(mut r) = vh::rawpeer::RawStream::connect(&vep).await {
+      let _ = r.write_all(&[0x13u8; 80]).await;
+      for k in 0..chunks {
+        tokio::time::sleep(Duration::from_millis(4)).await;
+        if r.write_all(&vec![0x40 + (k % 20) as u8; 200]).await.is_err() {
+          break;
+        }
+      }
+      raws.push(r);
+    }
+  }
+  tokio::time::sleep(Duration::from_millis(100)).await;
+  drop(raws);
+  // the healthy pair
+  let pull = mk(&ctx, SocketType::Pull, uring, u).await;
+  let ep = util::bind_fresh(&pull, Transport::Tcp).await.ok()?;
+  let push = mk(&ctx, SocketType::Push, uring, u).await;
+  let _ = push.connect(&ep).await;
+  tokio::time::sleep(util::scaled(Duration::from_millis(300))).await;
+  let p2 = push.clone();
+  let sender = tokio::spawn(async move {
+    for k in 0..30u32 {
+      let mut b = k.to_be_bytes().to_vec();
+      b.resize(500, 0x22);
+      if p2.send(util::msg(b, false)).await.is_err() {
+        break;
+      }
+    }
+  });
+  let mut got = 0usize;
+  let mut idle = 0;
+  while idle < 2 && got < 30 {
+    match pull.recv().await {
+      Ok(_) => {
+        idle = 0;
+        got += 1;
+      }
+      Err(_) => idle += 1,
+    }
+  }
+  sender.abort();
+  let _ = tokio::time::timeout(Duration::from_secs(12), ctx.term()).await;
+  Some(got)
+}
+
 /// Handshake outcome / error kind for a given peer behaviour on one backend.
 async fn handshake_scenario(which: &str, uring: bool, u: &Ucfg) -> Option<String> {
   let ctx = util::new_ctx();
@@ -337,6 +393,23 @@ fn main() {
         }
       }
       _ => rep.inconclusive(format!("handshake scenario {} did not finish on one backend", which)),
+    }
+  }
+  {
+    let mut d: [Option<usize>; 2] = [None, None];
+    for (k, uring) in [false, true].iter().enumerate() {
+      util::guarded(&rt, async {
+        d[k] = tokio::time::timeout(util::scaled(Duration::from_secs(60)), chatter_then_healthy(*uring, &u)).await.ok().flatten();
+      });
+    }
+    rep.case(&("chatter_then_healthy", &cfgname), true);
+    match (d[0], d[1]) {
+      (Some(t), Some(uo)) => {
+        if uo < t {
+          rep.violation("backend_difference|healthy_pair_starved_after_chatty_hostile_peers".to_string(), format!("[{}] two peers that kept sending {} chunks each after a bad greeting, then a healthy PUSH->PULL pair of 30 messages: the tokio backend delivered {}, the io_uring backend {}", cfgname, (u.bufs * 2).max(8), t, uo), json!({"tokio_delivered": t, "uring_delivered": uo, "uring_config": cfgname}));
+        }
+      }
+      _ => rep.inconclusive(format!("chatter_then_healthy did not finish on one backend [{}]", cfgname)),
     }
   }
   {
